@@ -43,6 +43,15 @@ def filterMX (n M : Nat) (P F : Nat → Nat → C) (cj : C → C) (cinv : C)
 /-- `field_conjugate_transpose` -/
 def fmCtrX (cj : C → C) (D : Nat → Bool → Bool → C) : Nat → Bool → Bool → C := fun r a b => cj (D r b a)
 
+/-- The same branch on a **matrix-valued field** (`tensor_shape = (2, ncol)`, `X b c j` = row `b`,
+column `c`, sample `j`): padding, `fftn` and `ifftn` act on every tensor component, and
+`field_dot(tf, f)` is `einsum('...ij,...jk->...ik')`, i.e. the 2×2 matrix is applied **from the
+left** to the 2×ncol matrix at every frequency sample. -/
+def filterMXM (n M : Nat) (P F : Nat → Nat → C) (cj : C → C) (cinv : C)
+    (D : Nat → Bool → Bool → C) (X : Bool → Nat → Nat → C) (a : Bool) (c i : Nat) : C :=
+  fmSynthesisX n M P F cj cinv
+    (fun r => D r a false * fmAnalysisX n M P F (X false c) r + D r a true * fmAnalysisX n M P F (X true c) r) i
+
 end
 
 /-! ## executable instance: one grid axis, values in `PSum` -/
@@ -67,5 +76,16 @@ def filterMImpulse (adjoint : Bool) (n M : Nat) (dre dim : List Rat) (b : Bool) 
   let x : Bool → Nat → PSum := fun b' i => if b' = b then PSum.impulse j i else 0
   [false, true].flatMap fun a => (List.range n).map fun i =>
     filterMX n M (fmPad1 n M) (fmDft1 M) PSum.conj (PSum.ofRat (1 / (M : Rat))) D' x a i
+
+/-- the same for a matrix-valued field with `ncol` columns: response to the unit impulse in row `b`,
+column `c`, sample `j`; all outputs `(a, c', i)`, row-major (the raveled layout of the `Field`) -/
+def filterMMImpulse (adjoint : Bool) (n M ncol : Nat) (dre dim : List Rat) (b : Bool) (c j : Nat) : List PSum :=
+  let D : Nat → Bool → Bool → PSum := fun r a' b' =>
+    let k := 4 * r + 2 * a'.toNat + b'.toNat
+    PSum.ofGauss (dre.getD k 0) (dim.getD k 0)
+  let D' := if adjoint then fmCtrX PSum.conj D else D
+  let X : Bool → Nat → Nat → PSum := fun b' c' i => if b' = b ∧ c' = c then PSum.impulse j i else 0
+  [false, true].flatMap fun a => (List.range ncol).flatMap fun c' => (List.range n).map fun i =>
+    filterMXM n M (fmPad1 n M) (fmDft1 M) PSum.conj (PSum.ofRat (1 / (M : Rat))) D' X a c' i
 
 end HcipyVerif.Fft
